@@ -11,6 +11,9 @@ GlamTable ==
     DVec2 |-> [s |-> "f64", d |-> <<2>>], DVec3 |-> [s |-> "f64", d |-> <<3>>], DVec4 |-> [s |-> "f64", d |-> <<4>>],
     UVec2 |-> [s |-> "u32", d |-> <<2>>], UVec3 |-> [s |-> "u32", d |-> <<3>>], UVec4 |-> [s |-> "u32", d |-> <<4>>],
     IVec2 |-> [s |-> "i32", d |-> <<2>>], IVec3 |-> [s |-> "i32", d |-> <<3>>], IVec4 |-> [s |-> "i32", d |-> <<4>>],
+    (* 64-bit integer vectors: the generator at hand refuses 64-bit integers (todo!()); should it ever accept them, the denotation is fixed *)
+    I64Vec2 |-> [s |-> "i64", d |-> <<2>>], I64Vec3 |-> [s |-> "i64", d |-> <<3>>], I64Vec4 |-> [s |-> "i64", d |-> <<4>>],
+    U64Vec2 |-> [s |-> "u64", d |-> <<2>>], U64Vec3 |-> [s |-> "u64", d |-> <<3>>], U64Vec4 |-> [s |-> "u64", d |-> <<4>>],
     Mat2 |-> [s |-> "f32", d |-> <<2, 2>>], Mat3 |-> [s |-> "f32", d |-> <<3, 3>>], Mat4 |-> [s |-> "f32", d |-> <<4, 4>>],
     DMat2 |-> [s |-> "f64", d |-> <<2, 2>>], DMat3 |-> [s |-> "f64", d |-> <<3, 3>>], DMat4 |-> [s |-> "f64", d |-> <<4, 4>>] ]
 
@@ -41,6 +44,9 @@ ObsLeafScalar(leaf) ==
 ExpectedFamily(t, mv) ==
   IF t.k \in {"vec", "mat"} THEN (IF mv = "glam" /\ GlamHas(t) THEN "glam" ELSE IF mv = "nalgebra" THEN "nalgebra" ELSE "prim")
   ELSE "prim"
+(* glam has 64-bit integer vectors, the documentation of the representation switch does not say whether they are used: either spelling *)
+AllowedFamilies(t, mv) ==
+  {ExpectedFamily(t, mv)} \cup (IF mv = "glam" /\ t.k = "vec" /\ t.s \in {"i64", "u64"} THEN {"glam", "prim"} ELSE {})
 
 (* value type (anything but a runtime-sized array) *)
 ElemOk(S, t, flat, mv) ==
@@ -54,7 +60,7 @@ ElemOk(S, t, flat, mv) ==
           /\ SubSeq(od, 1, na) = w.arrs
           /\ Sort2(SubSeq(od, na + 1, na + k)) = Sort2(LeafDims(w.leaf))
           /\ ObsLeafScalar(flat.leaf) = LeafScalar(w.leaf)
-          /\ flat.leaf.fam = ExpectedFamily(w.leaf, mv)
+          /\ flat.leaf.fam \in AllowedFamilies(w.leaf, mv)
 
 FieldOk(S, m, f, mv) ==
   IF m.ty.k = "rtarray"
